@@ -7,7 +7,7 @@ from collections import defaultdict
 
 import networkx as nx
 
-LOWEST_VALENCE = {'C': 4, 'N': 3, 'O': 2, 'S': 2, 'P': 3, 'F': 1, 'Cl': 1, 'Br': 1}
+LOWEST_VALENCE = {'C': 4, 'N': 3, 'O': 2, 'S': 2, 'P': 3, 'F': 1, 'Cl': 1, 'Br': 1, 'H': 1}
 USUAL_VALENCES = {'C': [4], 'N': [3, 5], 'O': [2], 'S': [2, 4, 6], 'P': [3, 5],
                   'F': [1], 'Cl': [1], 'Br': [1], 'H': [1]}
 # iso-electronic shift for charged centres
@@ -98,6 +98,22 @@ class Mol:
 
     def mass(self):
         return sum(MASS[a['element']] for a in self.atoms) + MASS['H'] * sum(self.hcount(i) for i in range(len(self.atoms)))
+
+
+def disjoint_union(m1, m2):
+    """mixture of two molecules as one model (atoms of m2 renumbered after those of m1)"""
+    m = copy.deepcopy(m1)
+    off = len(m1.atoms)
+    for a in m2.atoms:
+        m.atoms.append(dict(a))
+    for b, o in m2.bonds.items():
+        i, j = tuple(b)
+        m.bonds[frozenset((i + off, j + off))] = o
+    for r in m2.arom_rings:
+        m.arom_rings.append([x + off for x in r])
+    for k, v in m2.hfix.items():
+        m.hfix[k + off] = v
+    return m, off
 
 
 def kekulized(R, m):
@@ -241,6 +257,8 @@ def _ring_token(num):
 def atom_token(m, i, R, style):
     a = m.atoms[i]
     e = a['element']
+    if e == 'H':
+        return '[H]'        # an explicitly written hydrogen atom
     sym = e.lower() if a['aromatic'] else e
     if a['charge'] == 0 and style.get('bracket', 0) <= R.random():
         return sym
@@ -339,7 +357,7 @@ def render_fragment(R, m, atoms, descriptors, style=None, slash=None, annot=None
         for cid in ring_at[u]:
             a, b = closures[cid]
             if cid not in used:
-                pool = [x for x in (list(range(1, 10)) * 3 + list(range(10, 100))) if x not in used.values()]
+                pool = [x for x in (list(range(0, 10)) * 3 + list(range(10, 100))) if x not in used.values()]
                 num = R.choice(pool)
                 used[cid] = num
                 rd.append(bond_sym(a, b) + _ring_token(num))
@@ -448,7 +466,8 @@ def cut_descriptors(R, m, owner, kinds=('$', '><'), labels=None, feats=None):
     return desc, base
 
 
-def build_cgsmiles(R, m, owner, kinds=('$', '><'), style=None, names=None, feats=None, annot=None, slash=None):
+def build_cgsmiles(R, m, owner, kinds=('$', '><'), style=None, names=None, feats=None, annot=None, slash=None,
+                   zero_edges=()):
     """returns (string, info) with one fragment definition per fragment; None if rejected"""
     feats = feats if feats is not None else set()
     nfr = max(owner) + 1
@@ -456,6 +475,9 @@ def build_cgsmiles(R, m, owner, kinds=('$', '><'), style=None, names=None, feats
     desc, base = cut_descriptors(R, m, owner, kinds, feats=feats)
     if desc is None:
         return None, None
+    for (fa, fb) in zero_edges:
+        if not base.has_edge(fa, fb):
+            base.add_edge(fa, fb, order=0)      # order-0 edge between separate molecules of a mixture
     names = names or ['F%d' % f for f in range(nfr)]
     frs = []
     posmap = {}
@@ -517,7 +539,7 @@ def write_base(R, base, names, orders_sym=None, tokens=None, late_tokens=None):
         for cid in ring_at[u]:
             a, b = closures[cid]
             if cid not in used:
-                pool = [x for x in (list(range(1, 10)) * 3 + list(range(10, 100))) if x not in used.values()]
+                pool = [x for x in (list(range(0, 10)) * 3 + list(range(10, 100))) if x not in used.values()]
                 num = R.choice(pool)
                 used[cid] = num
                 toks.append((num, orders_sym[base.edges[a, b]['order']] + _ring_token(num)))
